@@ -109,8 +109,12 @@ def unitRowOps (rEdge ncols : Nat) (unit : Bytes) : List Op :=
 
 /-- the closure `warn`: footnote numbers of the messages (new messages are appended to the
 list), joined by a space, as one default cell -/
+def findIdx : List Bytes → Bytes → Option Nat
+  | [], _ => none
+  | a :: as, m => if a == m then some 0 else (findIdx as m).map (· + 1)
+
 def warnStep (st : List Bytes × List Bytes) (msg : Bytes) : List Bytes × List Bytes :=
-  match st.1.idxOf? msg with
+  match findIdx st.1 msg with
   | some i => (st.1, st.2 ++ [superscript (i + 1)])
   | none => (st.1 ++ [msg], st.2 ++ [superscript (st.1.length + 1)])
 
@@ -199,9 +203,14 @@ def colNameAux : Nat → Nat → Bytes → Bytes
 /-- the spreadsheet-style column label ToCSV builds from `len(row)` (as written: 'A' + x%26 digits) -/
 def colName (x : Nat) : Bytes := if x == 0 then [65] else colNameAux 10 x []
 
+/-- one line of the warnings stream: `<cell reference>: <message>` for the cell at field index
+`rowLen` (0-based) of CSV row `rowNo` -/
+def warnLine (p : Nat × Nat × Bytes) : Bytes :=
+  colName p.1 ++ natDigits p.2.1 ++ [0x3A, 0x20] ++ p.2.2 ++ [0x0A]
+
 /-- the closure `warn` of ToCSV: one line per message -/
 def csvWarn (rowLen rowNo : Nat) (msgs : List Bytes) : List Bytes :=
-  msgs.map fun m => colName rowLen ++ natDigits rowNo ++ [0x3A, 0x20] ++ m ++ [0x0A]
+  msgs.map fun m => warnLine (rowLen, rowNo, m)
 
 structure CsvSt where
   recs : List (List Bytes) := []
